@@ -541,7 +541,53 @@ def eval_cell(case):
     return out, info
 
 
+# finding D32: an implementation whose designated cell is one of its ports (Verilog-style feed-through input cell -> fork -> output
+# cell as first output). substitute() gives the instance the kind of the port cell and copies the line port cell -> fork, whose
+# reader pin is then taken by the instance's own input line: the circuit is no longer well-formed (Lean witness
+# C10.substitute_designated_port_not_wf), and a following copy() / pickle round trip connects the fork to the stale line.
+# The case is replayed every run from corpus/C10-designated-port.json.
+FEEDTHROUGH = {'kind': 'subst-copy', 'cell': 'u',
+               'host': {'nodes': [['i', 'input'], ['u', 'CELL'], ['o', 'output']], 'lines': [[0, 0, 1, 0], [1, 0, 2, 0]], 'io': [0, 2]},
+               'impl': {'nodes': [['A', 'input'], ['a', '__fork__'], ['X', 'output']], 'lines': [[0, 0, 1, 0], [1, 0, 2, 0]], 'io': [0, 2]}}
+
+
+def eval_subst_copy(case):
+    """case: {'kind':'subst-copy', 'host': json, 'impl': json, 'cell': name}: substitute(cell, impl), then copy(): the function at the
+    ports / state elements must survive both, and the result of substitute must be a well-formed dump (up to trailing None)"""
+    c, impl = from_json(case['host']), from_json(case['impl'])
+    keys = source_keys(c)
+    rows, n = make_rows(random.Random(0), keys)
+    ref = simulate(c, rows, n) if not has_lib_cells_kind(c, case['cell']) else None
+    try:
+        c.substitute(c.cells[case['cell']], impl)
+    except Exception as ex:
+        return [], {'raised': type(ex).__name__}
+    out = []
+    wfnt = common.run_driver([f'xform wfnt {names_arg(c)} {circ.dump_net(c)}'])[0]
+    try:
+        a = simulate(c, rows, n)
+        b = simulate(c.copy(), rows, n)
+    except Exception as ex:
+        return [('substitute-designated-port', f'simulation after substitute / copy raised {type(ex).__name__}: {ex}'[:300],
+                 {'wfNoTrail': wfnt}, {'wfNoTrail': '1'})], {}
+    if a != b:
+        d = first_table_diff(a, b, rows, n)
+        out.append(('substitute-designated-port', 'copy() after substitute() changes the function', {'wfNoTrail': wfnt, 'diff': d},
+                    {'wfNoTrail': '1', 'same_function': True}))
+    elif wfnt != '1':
+        out.append(('substitute-designated-port', 'substitute() returns a circuit that is not well-formed', {'wfNoTrail': wfnt}, {'wfNoTrail': '1'}))
+    return out, {'wfNoTrail': wfnt}
+
+
+def has_lib_cells_kind(c, name):
+    return True     # the instance is not simulable before the substitution: no reference before
+
+
 def eval_case(case):
+    if case['kind'] == 'subst-copy':
+        f, _ = eval_subst_copy(case)
+        if not f: return True, None, None
+        return False, {'class': f[0][0], 'what': f[0][1], 'observed': f[0][2], 'all_classes': [x[0] for x in f]}, f[0][3]
     f, _ = (eval_compose if case['kind'] == 'compose' else eval_cell)(case)
     if not f: return True, None, None
     return False, {'class': f[0][0], 'what': f[0][1], 'observed': f[0][2], 'all_classes': [x[0] for x in f]}, f[0][3]
@@ -678,6 +724,8 @@ WHAT = {
                              'not with the pin reading 0 as in the implementation circuit',
     'state-cell-renamed': 'the state element of a substituted cell gets the name <instance>~<internal> because the first output is not driven by it',
     'function-changed': 'the Boolean function at a port / state element changed',
+    'substitute-designated-port': 'substitute() with an implementation whose designated cell is one of its ports (Verilog-style feed-through as '
+                                  'first output) returns a circuit that is not well-formed; copy() / pickle of it change the function',
 }
 
 
@@ -891,7 +939,7 @@ def is_regular(c, u, impl):
 
 def corr_subst(ck, n):
     rng = ck.rng
-    raised = changed = 0
+    raised = changed = covered = covered_rm = 0
     for it in range(n):
         impl, itags = lib_impl(rng) if rng.random() < 0.3 else rand_impl(rng)
         c, htags = rand_host(rng, impl)
@@ -899,6 +947,7 @@ def corr_subst(ck, n):
         htags.append('regular' if is_regular(c, u, impl) else 'not-regular')
         d0, nm, idx = circ.dump_net(c), names_arg(c), u.index
         req = f'subst {idx} {nm} {names_arg(impl)} {d0} @@ {circ.dump_net(impl)}'
+        hjson, ijson = to_json(c), to_json(impl)
         nodes0, lines0 = len(c.nodes), len(c.lines)
         try:
             c.substitute(u, impl); real = full_dump(c)
@@ -916,17 +965,52 @@ def corr_subst(ck, n):
             ck.broken_tie('substitute model correspondence: regularB', f'model {flag} != harness {htags[-1]}', inp={'request': req})
         feats = impl_features(impl)
         if real != 'raise' and (len(c.nodes) < nodes0 + sum(1 for q in impl.nodes if q not in impl.io_nodes) - 1): changed += 1
+        if real != 'raise':
+            # the result must be a well-formed dump up to trailing None (class substitute-designated-port otherwise)
+            try:
+                if common.run_driver([f'xform wfnt {names_arg(c)} {circ.dump_net(c)}'])[0] != '1':
+                    case = {'kind': 'subst-copy', 'cell': 'u', 'host': hjson, 'impl': ijson}
+                    f, _ = eval_subst_copy(case)
+                    report(ck, case, f or [('substitute-designated-port', 'substitute() returns a circuit that is not well-formed',
+                                            {'wfNoTrail': '0'}, {'wfNoTrail': '1'})],
+                           ('subst-copy', req), True, None, ['stream:corr-subst-wf'])
+            except Exception as ex:
+                ck.broken_tie('well-formedness of the substitute result', f'{type(ex).__name__}: {ex}'[:300], inp={'request': req})
+        # hypotheses of the theorem C10.substitute_sem evaluated on this case (coverage of the theorem on real circuits), and its
+        # conclusion `result well-formed` checked on the dump of the REAL result
+        semtag = 'sem-hyp:raise'
+        if real != 'raise':
+            try:
+                hyp = common.run_driver(['substok' + req[len('subst'):]])[0].split()
+                names = ['host-wf', 'impl-wf', 'cell-no-port', 'cell-no-fork', 'keepsAll', 'implOK']
+                failed = [nm for nm, v in zip(names, hyp) if v != '1']
+                semtag = 'sem-hyp:covered' if not failed else 'sem-hyp:uncovered:' + failed[0]
+                if failed == ['keepsAll'] and len(hyp) > 9 and hyp[8] == '1':
+                    # theorem substitute_sem_removing: dangling logic removed; result well-formed up to trailing None
+                    semtag = 'sem-hyp:covered-removing'; covered_rm += 1
+                    if hyp[9] != '1':
+                        ck.broken_tie('substitute_sem_removing: wfNoTrail of the result', f'wfNoTrail(model result) = {hyp[9]}', inp={'request': req})
+                if not failed:
+                    covered += 1
+                    rwf = common.run_driver([f'xform wf {names_arg(c)} {circ.dump_net(c)}'])[0]
+                    if rwf != '1' or hyp[7] != '1':
+                        ck.broken_tie('substitute_wf on the real result', f'hypotheses of substitute_sem hold but wf(real result) = {rwf}, '
+                                      f'wf(model result) = {hyp[7]}', inp={'request': req})
+            except Exception as ex:
+                ck.broken_tie('substitute_sem hypotheses', f'driver: {type(ex).__name__}: {ex}'[:300], inp={'request': req})
         ck.case(key=('subst', req), nontrivial=real != 'raise' and len(impl.nodes) > 0,
-                tag=['stream:corr-subst', f"subst-result:{'raise' if real == 'raise' else 'ok'}"] + [f'impl:{t}' for t in itags] +
+                tag=['stream:corr-subst', f"subst-result:{'raise' if real == 'raise' else 'ok'}", semtag] + [f'impl:{t}' for t in itags] +
                     [f'impl-shape:{x}' for x in feats] + [f'host:{t}' for t in sorted(set(htags))])
     ck.extra['corr_subst_raised'] = raised
     ck.extra['corr_subst_with_removed_nodes'] = changed
+    ck.extra['corr_subst_in_hypotheses_of_substitute_sem'] = covered
+    ck.extra['corr_subst_in_hypotheses_of_substitute_sem_removing'] = covered_rm
 
 
 def corr_resolve(ck, n):
     """resolve_tlib_cells(): model (resolveCells = substitute folded over the snapshot of the nodes) vs real code"""
     rng = ck.rng
-    raised = 0
+    raised = covered = 0
     for it in range(n):
         if rng.random() < 0.3:
             tl = rand_synth_lib(rng); special = None; libtag = 'synthetic'
@@ -958,9 +1042,26 @@ def corr_resolve(ck, n):
                 f = []
             report(ck, case, f, ('compose', json.dumps(c0json, sort_keys=True), '[["resolve"]]'), True, {'tlib': libtag, 'steps': [['resolve']]},
                    ['stream:corr-resolve-oracle'])
+        # hypotheses of C10.resolve_sem on this case, conclusion `result well-formed` on the real dump
+        semtag = 'sem-hyp:raise'
+        if real != 'raise':
+            try:
+                hyp = common.run_driver(['resolveok' + req[len('resolve'):]])[0].split()
+                ok = hyp[0] == '1' and hyp[1] == '1'
+                semtag = 'sem-hyp:covered' if ok else ('sem-hyp:uncovered:' + ('host-wf' if hyp[0] != '1' else hyp[3].split(':')[0]))
+                why = hyp[3]
+                if ok:
+                    covered += 1
+                    rwf = common.run_driver([f'xform wf {names_arg(c)} {circ.dump_net(c)}'])[0]
+                    if rwf != '1' or hyp[2] != '1':
+                        ck.broken_tie('resolve_sem: well-formed result on the real circuit', f'resolveOKB holds but wf(real result) = {rwf}, '
+                                      f'wf(model result) = {hyp[2]}', inp={'request': req[:4000]})
+            except Exception as ex:
+                ck.broken_tie('resolve_sem hypotheses', f'driver: {type(ex).__name__}: {ex}'[:300], inp={'request': req[:4000]})
         ck.case(key=('resolve', req), nontrivial=real != 'raise' and len(kinds) > 0,
-                tag=['stream:corr-resolve', f'lib:{libtag}', f'instances:{min(len(kinds), 4)}', f"resolve-result:{'raise' if real == 'raise' else 'ok'}"])
+                tag=['stream:corr-resolve', f'lib:{libtag}', f'instances:{min(len(kinds), 4)}', f"resolve-result:{'raise' if real == 'raise' else 'ok'}", semtag])
     ck.extra['corr_resolve_raised'] = raised
+    ck.extra['corr_resolve_in_hypotheses_of_resolve_sem'] = covered
 
 
 def compose_case(rng, thorough):
@@ -1101,7 +1202,7 @@ def run(ck):
     thorough = ck.tier == 'thorough'
     for case in corpus_cases():
         try:
-            f, info = (eval_compose if case['kind'] == 'compose' else eval_cell)(case)
+            f, info = (eval_subst_copy if case['kind'] == 'subst-copy' else eval_compose if case['kind'] == 'compose' else eval_cell)(case)
         except Exception as ex:
             f, info = [('harness', f'{type(ex).__name__}: {ex}'[:300], None, None)], {}
         report(ck, case, f, ('corpus', json.dumps(case, sort_keys=True)), True, None, ['stream:corpus'])
@@ -1120,9 +1221,11 @@ def run(ck):
         'circuit.py by exact dump correspondence and NNet.wf / NNet.forkIns1 are evaluated on every real dump',
         'elim_sem is stated for every consistent labelling (no uniqueness needed); that LogicSim computes a consistent labelling is C01',
         'substitute: ports, state elements (up to order; names and order in the regular same-class case), pin-by-pin wiring and '
-        'the equations outside the cell are theorems about the model; that the copied implementation computes the cell function '
-        '(substitute_sem) and the function after resolve_tlib_cells (modelled as a fold of substitute; resolve_ports proved) '
-        'are validated by simulation before/after, not proved',
+        'the equations outside the cell are theorems about the model; substitute_sem / substitute_sem_removing / resolve_sem (the copied '
+        'implementation has the relational meaning of the cell) are theorems about the model under decidable hypotheses (designated '
+        'cell that is no port, no connected-but-ignored input pin, implOKB; resolve: no substitution removes anything) - the harness '
+        'counts the real cases inside these hypotheses (driver substok / resolveok) and checks the well-formedness of the real '
+        'result there; outside them the function after substitute / resolve_tlib_cells is validated by simulation before/after only',
         'the function is observed through the real LogicSim(m=2) (C01); reference of a circuit with library cells = the same '
         'circuit flattened by an independent inliner (implementation ports become forks, unconnected inputs read 0)',
         'object identity of nodes = (name, class) as in Node.__eq__; dictionary order of forks is an explicit input of the model']
